@@ -1,5 +1,7 @@
 #include "gen.h"
 #include <algorithm>
+#include <cstring>
+#include <cctype>
 
 namespace sim { namespace gen {
 
@@ -48,6 +50,80 @@ std::string uri_text(Rng& r, const TextCfg& c) {
     if ((int)t.size() > c.max_len && !c.long_mode) t.resize((size_t)c.max_len);
     for (auto& ch : t) if (ch == 0) ch = 'x';
     return t;
+}
+
+std::string UriParts::render() const {
+    std::string t;
+    if (has_scheme) t += scheme + ":";
+    if (has_auth) { t += "//"; if (has_user) t += user + "@"; t += host; if (has_port) t += ":" + port; }
+    if (has_auth) { for (auto& s : segs) t += "/" + s; }
+    else { if (abs) t += "/"; for (size_t i = 0; i < segs.size(); i++) { if (i) t += "/"; t += segs[i]; } }
+    if (has_query) t += "?" + query;
+    if (has_frag) t += "#" + frag;
+    return t;
+}
+
+UriParts random_parts(Rng& r, const TextCfg& c) {
+    UriParts p;
+    p.has_scheme = r.chance(560); if (p.has_scheme) p.scheme = r.pick(kSchemes);
+    p.has_auth = r.chance(450);
+    if (p.has_auth) {
+        p.has_user = r.chance(300); if (p.has_user) p.user = r.pick(kUser);
+        p.host = r.pick(kHosts);
+        p.has_port = r.chance(300); if (p.has_port) p.port = r.pick(kPorts);
+    }
+    int nseg = r.chance(150) ? 0 : r.range(1, c.max_segs);
+    for (int i = 0; i < nseg; i++) p.segs.push_back(r.pick(kSegs));
+    if (!p.has_auth) {
+        p.abs = nseg ? r.chance(420) : r.chance(100);
+        // keep it parseable: no colon in the first relative segment without scheme, no "//" start without authority
+        if (!p.has_scheme && !p.abs && nseg && p.segs[0].find(':') != std::string::npos) p.segs[0] = "a";
+        if (p.abs && nseg > 1 && p.segs[0].empty()) p.segs[0] = "x";
+        if (!p.abs && nseg > 1 && p.segs[0].empty()) p.segs[0] = "y";
+    }
+    p.has_query = r.chance(300); if (p.has_query) p.query = r.pick(kQF);
+    p.has_frag = r.chance(280); if (p.has_frag) p.frag = r.pick(kQF);
+    return p;
+}
+
+static std::string tweak(Rng& r, const std::string& s, const char* alphabet) {
+    std::string t = s;
+    size_t n = strlen(alphabet);
+    if (t.empty()) { t += alphabet[r.below((uint32_t)n)]; return t; }
+    size_t i = r.below((uint32_t)t.size());
+    if (r.chance(500)) i = t.size() - 1;
+    char c;
+    do { c = alphabet[r.below((uint32_t)n)]; } while (c == t[i]);
+    t[i] = c;
+    return t;
+}
+
+UriParts edit_one(Rng& r, const UriParts& p0, std::string* what) {
+    UriParts p = p0;
+    for (int tries = 0; tries < 20; tries++) {
+        int k = r.range(0, 13);
+        switch (k) {
+        case 0: if (p.has_scheme) { p.scheme = tweak(r, p.scheme, "abcxyzABC"); *what = "scheme"; return p; } break;
+        case 1: if (p.has_auth) { if (p.has_user && r.chance(300)) p.has_user = false; else { p.user = p.has_user ? tweak(r, p.user, "uvw:") : (r.chance(500) ? "" : "u"); p.has_user = true; } *what = "userinfo"; return p; } break;
+        case 2: if (p.has_auth && !p.host.empty() && p.host[0] == '[') {   // IP literal: change a digit near the end or near the start
+                    size_t e = p.host.rfind(']');
+                    if (e != std::string::npos && e >= 2) { size_t i = r.chance(600) ? e - 1 : 1; char c = p.host[i]; if (isxdigit((unsigned char)c)) { p.host[i] = c == '1' ? '2' : '1'; *what = "host-ip-literal"; return p; } }
+                } break;
+        case 3: if (p.has_auth && !p.host.empty() && p.host[0] != '[') { p.host = tweak(r, p.host, "0123456789abh"); *what = "host"; return p; } break;
+        case 4: if (p.has_auth) { if (p.has_port && r.chance(300)) p.has_port = false; else { p.port = p.has_port ? tweak(r, p.port, "0123456789") : (r.chance(500) ? "" : "8"); p.has_port = true; } *what = "port"; return p; } break;
+        case 5: if (!p.segs.empty()) { size_t i = r.below((uint32_t)p.segs.size()); p.segs[i] = tweak(r, p.segs[i], "abcdAB.%"); *what = "segment"; return p; } break;
+        case 6: p.segs.push_back(r.chance(500) ? "" : "z"); *what = "segment-added"; return p;
+        case 7: if (!p.segs.empty()) { p.segs.pop_back(); *what = "segment-removed"; return p; } break;
+        case 8: if (!p.has_auth && !p.segs.empty()) { p.abs = !p.abs; *what = "absolute-flag"; return p; } break;
+        case 9: if (p.has_query && r.chance(400)) p.has_query = false; else { p.query = p.has_query ? tweak(r, p.query, "abq=&%") : (r.chance(600) ? "" : "q"); p.has_query = true; } *what = "query"; return p;
+        case 10: if (p.has_frag && r.chance(400)) p.has_frag = false; else { p.frag = p.has_frag ? tweak(r, p.frag, "abf%") : (r.chance(600) ? "" : "f"); p.has_frag = true; } *what = "fragment"; return p;
+        case 11: *what = "identical"; return p;
+        case 12: if (p.has_scheme) { for (auto& ch : p.scheme) if (isalpha((unsigned char)ch)) { ch = (char)(ch ^ 0x20); break; } *what = "scheme-case"; return p; } break;
+        default: if (!p.segs.empty() && !p.segs.back().empty()) { p.segs.back() += r.chance(500) ? "x" : ".html"; *what = "segment-extended"; return p; } break;
+        }
+    }
+    *what = "identical";
+    return p;
 }
 
 std::string abs_uri_text(Rng& r, const TextCfg& c) {
